@@ -292,6 +292,17 @@ def shrink(work, lines, ignore=None, budget=60):
     cur = list(lines)
     tries = 0
     chunk = max(1, (len(cur) - 1) // 2)
+
+    def signature(r):
+        # a shorter history is kept only if it disagrees in the same way: the same operation on both
+        # sides (removing lines can create histories the generators never produce -- e.g. operations
+        # on a handle whose Open failed -- whose disagreement would be about something else)
+        d = first_diff(r, ignore)
+        if d is None:
+            return None
+        return (str(d[1]).split(' ')[0], str(d[2]).split(' ')[0], 'nofile' in str(d[1]) or 'nofile' in str(d[2]))
+    r0 = run_single(work, cur)
+    want = signature(r0) if r0 is not None else None
     while chunk >= 1 and tries < budget:
         i = 1
         progressed = False
@@ -299,7 +310,7 @@ def shrink(work, lines, ignore=None, budget=60):
             cand = cur[:i] + cur[i + chunk:]
             tries += 1
             r = run_single(work, cand)
-            if r is not None and differs(r, ignore):
+            if r is not None and differs(r, ignore) and (want is None or signature(r) == want):
                 cur = cand
                 progressed = True
             else:
